@@ -216,6 +216,10 @@ pub struct World {
     pub(crate) next_port: u16,
     pub(crate) stalled: HashSet<IpAddr>,
     pub(crate) unreachable: HashSet<IpAddr>,
+    /// hosts that never receive a datagram (one-way loss towards them): a peer stuck in the middle of a handshake
+    pub(crate) muted: HashSet<IpAddr>,
+    /// accept(2) errors waiting to be returned by the listener on that port (ECONNABORTED, EMFILE, ...)
+    pub(crate) accept_errors: Vec<(u16, i32)>,
     pub(crate) dns: HashMap<String, DnsAnswer>,
     pub(crate) files: HashMap<PathBuf, Vec<u8>>,
     pub(crate) events: Vec<Event>,
@@ -377,6 +381,8 @@ pub fn start(cfg: Config) {
         next_port: 40000,
         stalled: HashSet::new(),
         unreachable: HashSet::new(),
+        muted: HashSet::new(),
+        accept_errors: Vec::new(),
         dns: HashMap::new(),
         files: HashMap::new(),
         events: Vec::new(),
@@ -511,6 +517,31 @@ pub fn set_stalled(ip: IpAddr, stalled: bool) {
     }
     w.change_notify.notify_waiters();
 }
+/// One-way blackhole: datagrams addressed to `ip` are dropped, what it sends still arrives.
+pub fn set_muted(ip: IpAddr, on: bool) {
+    let mut w = world();
+    w.log(if on { "host_mute" } else { "host_unmute" }, 0, 0, ip.to_string());
+    if on {
+        w.muted.insert(ip);
+    } else {
+        w.muted.remove(&ip);
+    }
+}
+
+/// The next accept() on the proxy's TCP listener with this port fails with `errno`.
+pub fn inject_accept_error(port: u16, errno: i32) {
+    let wakers: Vec<Waker> = {
+        let mut w = world();
+        w.log("accept_error", 0, errno as u64, port.to_string());
+        w.count("accept_error_injected");
+        w.accept_errors.push((port, errno));
+        w.listeners.values_mut().filter(|l| l.addr.port() == port).filter_map(|l| l.waker.take()).collect()
+    };
+    for wk in wakers {
+        wk.wake();
+    }
+}
+
 pub fn set_unreachable(ip: IpAddr, on: bool) {
     let mut w = world();
     if on {
